@@ -117,6 +117,7 @@ T = [
     ["def fd():", "    return $E", "    $B"],
     ["v = [(lambda: $E), (lambda: $E)]"],
     ["def fe(p):", '    ""', "    $B", '    return ("", $E)'],
+    ["def fp(p, /, q=$E, *, k):", "    loc = k", "    $B", "    return (q, loc)"],
 ]
 
 # contexts: (name, header lines, indent)
